@@ -199,6 +199,18 @@ def oracle_file(case) -> list:
         want_cls = expected_chi_class(ref)
         if want_cls is not None and getattr(r.chi_class, "value", None) != want_cls:
             out.append(D("C18:chi_class:wrong", f"{r.full_name}: chi {math.degrees(ref):.2f} deg classified {r.chi_class}"))
+        # the same atoms under the other one-letter names a reader can hand over (lower case from MODRES parents,
+        # 'N' from an entity_poly sequence, '?' when nothing could be guessed): chi is a property of the atoms -
+        # O4'-C1'-N9-C4 when the base has N9, else O4'-C1'-N1-C2 - whatever the letter
+        if len(coords) <= 40:
+            from rnapolis.tertiary import Residue3D
+
+            for letter in (r.one_letter_name.lower(), "N", "n", "?", "X"):
+                r2 = Residue3D(r.label, r.auth, r.model, letter, r.atoms)
+                ds2 = judge(f"chi-v1-letter-{'lower' if letter.islower() and letter != 'n' else letter}", r2.chi, ref)
+                out += [D(d.sig, f"{r.full_name} as {letter!r}: {d.what}") for d in ds2]
+                if ds2:
+                    break
     # second implementation: torsion table
     with open(path) as f:
         table = parse_pdb_atoms(f) if case["file"].endswith(".pdb") else parse_cif_atoms(f)
